@@ -295,6 +295,17 @@ def gen_cases(rng, tier):
             if text is not None:
                 extra.append(dict(c, defstring=True))
     cases += extra
+    # the same definition arriving AFTER a benign definition of the same type name in the same stream / file / process
+    # (a second version of a type): it is validated on its own, never answered with the earlier one
+    rp = rng.fork("prior")
+    extra = []
+    for c in cases:
+        if c["kind"] == "desc" and c["route"] in ("stream", "json", "avro") and not c.get("defstring") and rp.chance(35):
+            name, fields = dec_str(c["name"]), [(dec_str(t), dec_str(n)) for t, n in c["fields"]]
+            if ref_slash(name) and not any(keyword.iskeyword(x) for x in name.replace("/", "_").split("_") + [name.replace("/", "_")]) \
+                    and fields and _benign_twin(fields) != fields:
+                extra.append(dict(c, prior=True))
+    cases += extra
     # malformed kinds (not modelled): bytes / None / numbers / wrong arity
     for raw in [["bytes-name"], ["none-name"], ["int-name"], ["bytes-field"], ["none-field"], ["int-field"],
                 ["arity1"], ["arity3"], ["fields-string"], ["fields-none"], ["list-name"], ["bytes-type"], ["none-type"]]:
@@ -525,9 +536,59 @@ def _stream_bytes(name, fields):
     return struct.pack(">I", len(hdr)) + hdr + struct.pack(">I", len(frame)) + frame
 
 
-def _deliver(base, route, name, fields, defstring=False):
+class Shadowed(Exception):
+    """the definition was neither rejected nor registered: an earlier definition answered for it"""
+
+
+def _benign_twin(fields):
+    """a valid definition with the same types where they are valid, and - per type - the same LAST field name where
+    that is valid; every other name replaced"""
+    last = {}
+    for i, (t, n) in enumerate(fields):
+        last[t] = i
+    out = []
+    for i, (t, n) in enumerate(fields):
+        tt = t if ref_type(t) else "string"
+        keep = last[t] == i and ref_ident_l(n) and not keyword.iskeyword(n) and n not in [x for _, x in out]
+        out.append((tt, n if keep else "ok%d" % i))
+    return out
+
+
+def _deliver_after_prior(base, route, name, fields):
+    from flow.record import RecordDescriptor
+    prior = _benign_twin(fields)
+    want = (name, tuple((t, n) for t, n in fields))
+    if route == "avro":
+        from flow.record.adapter.avro import schema_to_descriptor
+        mk = lambda fs: {"type": "record", "name": "x", "doc": json.dumps([name, [[t, n] for t, n in fs]]), "fields": []}  # noqa: E731
+        schema_to_descriptor(mk(prior))
+        d = schema_to_descriptor(mk(fields))
+        if (d.name, tuple(d.get_field_tuples())) != want:
+            raise Shadowed("avro schema")
+        return d
+    if route == "stream":
+        from flow.record.stream import RecordStreamReader
+        first = _stream_bytes(name, prior)
+        second = _stream_bytes(name, fields)
+        hdr_len = 4 + struct.unpack(">I", second[:4])[0]
+        rd = RecordStreamReader(io.BytesIO(first + second[hdr_len:]))
+    else:
+        from flow.record.adapter.jsonfile import JsonfileReader
+        mk = lambda fs: json.dumps({"_type": "recorddescriptor", "_data": [name, [[t, n] for t, n in fs]]}) + "\n"  # noqa: E731
+        rd = JsonfileReader(io.BytesIO((mk(prior) + mk(fields)).encode()))
+    for _ in rd:
+        pass
+    for d in rd.packer.descriptors.values():
+        if (d.name, tuple(d.get_field_tuples())) == want:
+            return d
+    raise Shadowed(route)
+
+
+def _deliver(base, route, name, fields, defstring=False, prior=False):
     """-> descriptor object accepted by the library (or raises)"""
     from flow.record import RecordDescriptor
+    if prior:
+        return _deliver_after_prior(base, route, name, fields)
     text = _defstring(name, fields) if defstring else None
     if route == "api":
         if text is not None:
@@ -653,7 +714,7 @@ def run_real(case):
         name, fields = dec_str(case["name"]), [(dec_str(t), dec_str(n)) for t, n in case["fields"]]
         route = case["route"]
         try:
-            d = _deliver(base, route, name, fields, case.get("defstring", False))
+            d = _deliver(base, route, name, fields, case.get("defstring", False), case.get("prior", False))
             obs = {"accepted": True, "dname": enc_str(d.name), "slots": [enc_str(s) for s in d.recordType.__slots__],
                    "tuples": [[enc_str(t), enc_str(n)] for t, n in d.get_field_tuples()],
                    "is_record": issubclass(d.recordType, base.Record),
@@ -663,6 +724,11 @@ def run_real(case):
         srcs = list(_state["capture"])
         imports = list(_state["imports"])
         ename, efields = _effective(route, name, fields)
+        if case.get("prior"):
+            # what the benign earlier definition compiled and imported is not this definition's doing
+            srcs = srcs[1:]        # the benign definition is always accepted and compiled first
+            obs["prior"] = True
+            imports = []
         obs["sources"] = [_check_source(base, s, ename, efields) if ename is not None else {"parsed": None} for s in srcs]
         if len(srcs) == 1 and len(srcs[0]) < 20000:
             obs["source"] = enc_str(srcs[0])
@@ -785,6 +851,9 @@ def oracle(case, obs):
         else:
             if not obs.get("error"):
                 return "definition neither accepted nor rejected with an error"
+            if obs["error"] == "Shadowed":
+                return ("a definition that arrives after another definition of the same type name was neither rejected nor "
+                        "registered: the earlier definition answered for it")
         return None
     return None
 
@@ -862,7 +931,7 @@ def compare(case, obs, m):
             if obs["error"] not in ERRMAP[m["error"]]:
                 return f"model rejects with {m['error']}, implementation raised {obs['error']}"
         mi = _uniq([dec_str(x) for x in m["imports"]])
-        if mi != _uniq(obs["imports"]):
+        if not case.get("prior") and mi != _uniq(obs["imports"]):     # (after a prior definition the modules are loaded already)
             return f"model imports {mi} vs implementation {_uniq(obs['imports'])}"
         # the exact text handed to exec vs the model's render (template instantiated with the slot names)
         if m.get("source") is None:
